@@ -28,7 +28,10 @@ ASSUMPTIONS = [
     "uses the specification constants 0.4 s / 3.2 s / 5 attempts only",
 ]
 
-T_MIN, T_MAX, BUDGET = 0.4, 3.2, 5
+from vlib import cfg
+
+T_MIN, T_MAX = 0.4, 3.2  # ASH specification
+BUDGET = cfg.ash_attempts()  # "the configured number of attempts"
 EPS = 1e-6
 KINDS = ["ack", "stale", "nak", "none", "error", "rstack"]
 FS = [0.0, 0.25, 1 - EPS, 1.0, 1 + EPS, 0.6, 0.5]
